@@ -4,6 +4,7 @@ package eval
 
 import (
 	"fmt"
+	"os"
 	"sort"
 	"strings"
 
@@ -75,8 +76,7 @@ func vsBasic(r *vsched.Result) (string, string) {
 	if r.Panics > 0 {
 		for _, l := range r.Log {
 			if strings.HasPrefix(l, "PANIC") {
-				first := strings.SplitN(l, "\n", 2)[0]
-				return "panic:" + vsPanicSite(l), first
+				return "panic:" + vsPanicSite(l), l
 			}
 		}
 		return "panic", "a goroutine panicked"
@@ -85,16 +85,16 @@ func vsBasic(r *vsched.Result) (string, string) {
 }
 
 func vsPanicSite(l string) string {
-	for _, line := range strings.Split(l, "\n") {
-		line = strings.TrimSpace(line)
-		if strings.HasPrefix(line, "/repo/pkg/") && !strings.Contains(line, "zzverif") {
-			f := strings.Fields(line)[0]
-			f = f[strings.LastIndex(f, "/")+1:]
-			if i := strings.Index(f, ":"); i >= 0 {
-				f = f[:i]
-			}
-			return f
+	// "PANIC in gN: msg @ file.go:123 < ..."
+	if i := strings.LastIndex(l, " @ "); i >= 0 {
+		site := l[i+3:]
+		if j := strings.Index(site, " <"); j >= 0 {
+			site = site[:j]
 		}
+		if j := strings.Index(site, ":"); j >= 0 {
+			site = site[:j]
+		}
+		return site
 	}
 	return "unknown"
 }
@@ -107,3 +107,5 @@ func vsSortedKeys(m map[string]bool) []string {
 	sort.Strings(ks)
 	return ks
 }
+
+func os_Getenv(k string) string { return os.Getenv(k) }
